@@ -148,4 +148,8 @@ def run(repo: Repo, rep: Report, tier: str) -> None:
     from .c08 import generated_globals_rule
 
     generated_globals_rule(repo, rep, "C15.R3")
+    from .memo import memo_rule
+
+    memo_rule(repo, rep, "C15.R4")
+
 
